@@ -18,6 +18,7 @@ import (
 	"github.com/datastax/go-cassandra-native-protocol/primitive"
 
 	"verif/internal/mon"
+	"verif/internal/scribble"
 )
 
 func main() { mon.Main("C13", run) }
@@ -375,6 +376,11 @@ func (rn *runner) runCase(lc *local, p *pair, vi int, seed int64) {
 			if !bytes.Equal(wire, wireBefore) {
 				stab = append(stab, stabFinding{"source-bytes-mutated", map[string]interface{}{"bytes_before": hex.EncodeToString(wireBefore), "bytes_after_second_decode": hex.EncodeToString(wire)}})
 				wire = wireBefore
+			}
+			// this case is done with what it decoded: edit it in place, the way a caller doing arithmetic on a
+			// decoded *big.Int does. A codec that hands out objects it keeps using returns the damage in a later case.
+			if holderNow := destLeaf(p.form, dest); holderNow != nil {
+				lc.counters["decoded_values_edited_in_place"] += int64(scribble.Over(holderNow))
 			}
 		}
 	}
